@@ -69,9 +69,13 @@ HIERARCHY_MAPPER = {'class': 'CCN_class', 'subclass': 'CCN_subclass',
 
 
 def tree_data(with_names=True, drop=None, flat=False, hmap=False,
-              shared_label=False):
+              shared_label=False, childless=False):
     d = json.loads(json.dumps(TREE))
     nm = json.loads(json.dumps(NAME_MAPPER))
+    if childless:
+        # an inner node without children (the validator accepts it)
+        d['class']['clsZ'] = []
+        nm['class']['clsZ'] = {'name': 'class without subclasses'}
     if shared_label:
         # the label 'c2' is used at two levels (subclass and cluster)
         # with different display names
@@ -144,13 +148,15 @@ def write_query(path, enc='dense', raw=True, cells=None, genes=None):
 class Inputs:
     """input files of one job (never modified by a correct run)"""
 
-    def __init__(self, with_names=True, hmap=False, shared_label=False):
+    def __init__(self, with_names=True, hmap=False, shared_label=False,
+                 childless=False):
         root = sandbox_root()
         self.dir = os.path.join(root, 'inputs')
         shutil.rmtree(self.dir, ignore_errors=True)
         os.makedirs(self.dir)
         self.tree = tree_data(with_names, hmap=hmap,
-                              shared_label=shared_label)
+                              shared_label=shared_label,
+                              childless=childless)
         self.shared_label = shared_label
         self.stats = os.path.join(self.dir, 'reference_stats.h5')
         write_stats(self.stats, self.tree)
